@@ -6,7 +6,8 @@ import corr
 import vlib
 
 PROP = "C12"
-MODULE = "Proofs.C12"
+MODULE = "Proofs.C12All"
+GOLDEN_MODULE = "Proofs.C12BindGolden"
 NS = "Teakra.Bus."
 THEOREMS = [NS + t for t in [
     "cellTable_off", "cellAt_off", "cellAt_inj", "kind_table", "coupled_table", "emits_table",
@@ -15,8 +16,13 @@ THEOREMS = [NS + t for t in [
     "mirror_host", "mirror_host_write", "mirror_dsp", "mirror_dsp_write",
     "write_no_event_unless_trigger", "read_no_event", "read_pure_unless_fifo",
     "const_reads", "wo_read_unchanged", "accum_reads_or", "reset_clears_icu_and_store", "resetUpstream_keeps_icu_and_store"]] + [
-    "Teakra.cell_frame", "Teakra.cell_readback", "Teakra.cell_events"]
-TRUSTED = ["hand-written model lean/TeakraModel/{Periph,Mmio,MmioKinds,Bus}.lean of src/mmio.cpp, src/memory_interface.*, "
+    "Teakra.cell_frame", "Teakra.cell_readback", "Teakra.cell_events",
+    # over the binding table translated from src/mmio.cpp of the tree under test on every run (Proofs/C12Bind.lean)
+    "Teakra.bind_wellformed", "Teakra.bind_setters_distinct", "Teakra.setters_disjoint_of_ne", "Teakra.slotsOk_bounds",
+    "Teakra.bind_offsets_eq_model", "Teakra.bind_const_eq_model", "Teakra.bind_mask_eq_model"]
+TRUSTED = ["tools/translate_mmio.py (constructor of MMIORegion -> lean/TeakraModel/Generated/MmioBind.lean: loops unrolled, "
+           "offsets evaluated, accessor expressions identified by the first 32 bits of the SHA-256 of their canonical text)",
+           "hand-written model lean/TeakraModel/{Periph,Mmio,MmioKinds,Bus}.lean of src/mmio.cpp, src/memory_interface.*, "
            "src/shared_memory.h, src/core_timing.h and the wiring / Reset / host API of src/teakra.cpp (the peripheral "
            "models Timer/Btdmp/Apbp/Icu/Ahbm/Dma are reused unchanged), tied by the `bus` correspondence slice on a real "
            "Teakra::Teakra",
@@ -44,7 +50,45 @@ FIFO = (0xC2, 0xC6, 0xCA)
 def regenerate():
     sys.path.insert(0, os.path.join(vlib.ROOT, "tools"))
     import gen_impl
-    return gen_impl.generate()
+    import translate_mmio
+    st = gen_impl.generate()
+    st.pop("include_dir", None)
+    st.update(translate_mmio.generate())
+    return st
+
+
+def binding_rows(path):
+    """{offset: text of the row} of a translated binding table."""
+    import re
+    rows = {}
+    cur = None
+    for line in open(path):
+        m = re.match(r"^  \(0x([0-9A-F]{3}), ", line)
+        if m:
+            cur = int(m.group(1), 16)
+            rows[cur] = ""
+        if cur is not None:
+            rows[cur] += line
+    return rows
+
+
+def golden_check():
+    """`bind_eq_golden`: the regenerated binding table against the committed translation of the pinned tree."""
+    ok, log = vlib.lean_build([GOLDEN_MODULE])
+    info = {"theorem": "Teakra.bind_eq_golden", "holds": ok}
+    if ok:
+        return info, None
+    g = binding_rows(os.path.join(vlib.LEAN, "TeakraModel", "Golden", "MmioBind.lean"))
+    n = binding_rows(os.path.join(vlib.LEAN, "TeakraModel", "Generated", "MmioBind.lean"))
+    diff = sorted(o for o in set(g) | set(n) if g.get(o) != n.get(o))
+    info["offsets_differing"] = ["%03x" % o for o in diff]
+    desc = ("the cell bindings translated from src/mmio.cpp differ from the bindings the model of the register map was "
+            "written against (theorem bind_eq_golden no longer checks) at offset(s) %s: %s"
+            % (", ".join("0x%03X" % o for o in diff[:8]),
+               " ".join((n.get(diff[0]) or "<no longer bound>").split())[:300] if diff else log[-300:]))
+    return info, (desc, {"kind": "proof", "failed": ["Teakra.bind_eq_golden"], "offsets": info["offsets_differing"],
+                         "generated": {("%03x" % o): n.get(o) for o in diff[:8]},
+                         "golden": {("%03x" % o): g.get(o) for o in diff[:8]}}, False)
 
 
 _KINDS = None
@@ -429,7 +473,8 @@ def explore(rng, tier, replay=None):
         scripts.append(timing(rng, 5 + rng.below(30)))
     K = kinds()
     nrw = sum(1 for o in K if K[o][0] in ("rw", "rwt"))
-    return corr.explore(PROP, scripts, judge=judge, signature=signature, inspect=inspect,
+    ginfo, gviol = golden_check()
+    ctx = corr.explore(PROP, scripts, judge=judge, signature=signature, inspect=inspect,
                         rule="exhaustive: every offset 0..0x7FF x {0, 0xFFFF, walking ones, walking zeros, random words} through the "
                              "host path (MMIOWrite at one of the 32 mirrors) and through the DSP path (DataWrite at mmio_base + "
                              "offset), each write between two read-back sweeps of all 2045 side-effect-free cells on a real "
@@ -440,7 +485,11 @@ def explore(rng, tier, replay=None):
                              "histories (MMIO both paths, window relocation, host API, Reset, AHBM, DMA start) and timing scripts "
                              "(timers / audio port programmed through MMIO, CoreTiming::Tick / Skip, interrupt latches of the "
                              "interpreter). quick tier: 10 values per cell instead of 40" % nrw,
-                        extra={"exhaustive": "all 0x800 offsets, both paths" + ("" if tier != "quick" else " (reduced value set)")})
+                        extra={"exhaustive": "all 0x800 offsets, both paths" + ("" if tier != "quick" else " (reduced value set)"),
+                               "golden_agreement": ginfo})
+    if gviol:
+        ctx["violations"].append(gviol)
+    return ctx
 
 
 def replay(rep):
